@@ -400,3 +400,17 @@ func reachableCount(info *effectsInfo, root *ssa.Function) int {
 	walk(root)
 	return len(seen)
 }
+
+// statelessRoots applies ruleStatelessGlobals to the named functions/methods of the root package: cryptographic
+// routines are functions of their arguments (and receiver) only — a package-level scratch buffer, pool or cache makes a
+// later call depend on an earlier one.
+func statelessRoots(c *Ctx, rule string, names ...string) {
+	for _, n := range names {
+		fn := c.Prog.SSAFunc("", n)
+		if fn == nil {
+			c.Run.Unknown(rule, "lorawan."+n, "", "anchor function exists", "missing")
+			continue
+		}
+		ruleStatelessGlobals(c, rule, fn)
+	}
+}
